@@ -254,7 +254,15 @@ func c05HasNeg(s subConf) bool {
 	return false
 }
 
-var c05KnownHangProbed atomic.Bool
+// c05Stash is the first sequential program prefix that ends in the exactly
+// predicted known hang shape.
+type c05Stash struct {
+	init       subConf
+	initLoaded cluster_table_conf.SubClusterBackend
+	ops        []c05RROp
+}
+
+var c05KnownHangStash *c05Stash
 
 // c05RRState is the state of one sequentially executed BalanceRR program.
 type c05RRState struct {
@@ -262,6 +270,11 @@ type c05RRState struct {
 	brr      *bal_slb.BalanceRR
 	ssActive bool
 	sawNeg   bool // some configuration applied so far carried a negative weight
+	probing  bool // replay of the stashed known-hang program: execute the risky call
+	init     subConf
+	initLoaded cluster_table_conf.SubClusterBackend
+	prog     []c05RROp
+	pos      int
 	mu       sync.Mutex
 	curAlgor int
 	curShape c05Shape
@@ -327,29 +340,16 @@ func (st *c05RRState) step(op *c05RROp) *c05Failure {
 		if risky {
 			st.rec.Class("wrrsimple-avail-negative-no-usable-positive")
 		}
-		if risky && st.rec.Known(c05KeyHangNeg) {
-			if !c05KnownHangProbed.CompareAndSwap(false, true) {
-				st.rec.Excluded("known-finding:" + c05KeyHangNeg)
-				return nil
+		if risky && st.rec.Known(c05KeyHangNeg) && !st.probing {
+			// behind the open finding: excluded by construction. The first exactly
+			// predicted shape (no slow start involved) is replayed once at the end of
+			// the test to re-confirm the finding (a stuck call burns a core for the
+			// rest of the process, so it is not done in the middle of the run).
+			st.rec.Excluded("known-finding:" + c05KeyHangNeg)
+			if sh.AvailNeg && !(sh.AvailPos || sh.AvailPosCur) && !st.ssActive && c05KnownHangStash == nil && st.prog != nil {
+				c05KnownHangStash = &c05Stash{init: st.init, initLoaded: st.initLoaded, ops: append([]c05RROp(nil), st.prog[:st.pos+1]...)}
 			}
-			// re-confirm the open finding once per process, in a goroutine of its own
-			done := make(chan *c05Failure, 1)
-			go func() {
-				var f *c05Failure
-				for i := 0; i < n && f == nil; i++ {
-					f = st.balanceOnce(op.Algor, op.Key, false)
-				}
-				done <- f
-			}()
-			select {
-			case f := <-done:
-				// this shape did not hang (over-approximated prediction): probe the next one again
-				c05KnownHangProbed.Store(false)
-				st.rec.Class("known-hang-probe-returned")
-				return f
-			case <-time.After(c05KnownWindow):
-				return &c05Failure{Key: c05KeyHangNeg, Hang: true, Msg: fmt.Sprintf("BalanceRR.Balance(WrrSimple) did not return within %v: avail=%v (weight,current)=%v", c05KnownWindow, sh.Avail, sh.W)}
-			}
+			return nil
 		}
 		st.note(op.Algor, sh, true)
 		for i := 0; i < n; i++ {
@@ -397,7 +397,7 @@ func (st *c05RRState) step(op *c05RROp) *c05Failure {
 
 // c05Watched runs step(0..n-1) in a goroutine; a hang is declared when the
 // same step is still running after a full window.
-func c05Watched(n int, step func(i int) *c05Failure) (fail *c05Failure, hungAt int) {
+func c05Watched(n int, window time.Duration, step func(i int) *c05Failure) (fail *c05Failure, hungAt int) {
 	done := make(chan *c05Failure, 1)
 	var cur atomic.Int64
 	cur.Store(-1)
@@ -413,7 +413,7 @@ func c05Watched(n int, step func(i int) *c05Failure) (fail *c05Failure, hungAt i
 	}()
 	last := int64(-2)
 	for {
-		tm := time.NewTimer(c05HangWindow)
+		tm := time.NewTimer(window)
 		select {
 		case f := <-done:
 			tm.Stop()
@@ -987,6 +987,23 @@ func TestC05(t *testing.T) {
 			c05CaseTblConc(rt, rec, env, &poisoned)
 		}
 	})
+
+	// re-confirm the open hang finding once, last (see step)
+	if sh := c05KnownHangStash; sh != nil && rec.Known(c05KeyHangNeg) {
+		st := &c05RRState{rec: rec, brr: bal_slb.NewBalanceRR("s0"), sawNeg: c05HasNeg(sh.init), probing: true}
+		st.brr.Init(sh.initLoaded)
+		fail, hungAt := c05Watched(len(sh.ops), c05KnownWindow, func(i int) *c05Failure { return st.step(&sh.ops[i]) })
+		w := map[string]any{"mode": "rr-seq", "init": sh.init, "ops": sh.ops}
+		switch {
+		case hungAt >= 0:
+			rec.Class("hang-observed")
+			rec.Fail(t, c05KeyHangNeg, w, "Balance(WrrSimple) (op %d) did not return within %v", hungAt, c05KnownWindow)
+		case fail != nil:
+			rec.Fail(t, fail.Key, w, "%s", fail.Msg)
+		default:
+			rec.Class("known-hang-probe-returned")
+		}
+	}
 }
 
 func c05Report(rt *rapid.T, rec *ev.Rec, f *c05Failure, witness any) bool {
@@ -1027,9 +1044,9 @@ func c05CaseRRSeq(rt *rapid.T, rec *ev.Rec, env *c05Env) {
 	rec.Case(string(fpb), nt, classes...)
 	rec.Sample(w)
 
-	st := &c05RRState{rec: rec, brr: bal_slb.NewBalanceRR("s0"), sawNeg: c05HasNeg(init)}
+	st := &c05RRState{rec: rec, brr: bal_slb.NewBalanceRR("s0"), sawNeg: c05HasNeg(init), init: init, initLoaded: loaded, prog: ops}
 	st.brr.Init(loaded)
-	fail, hungAt := c05Watched(len(ops), func(i int) *c05Failure { return st.step(&ops[i]) })
+	fail, hungAt := c05Watched(len(ops), c05HangWindow, func(i int) *c05Failure { st.pos = i; return st.step(&ops[i]) })
 	if hungAt >= 0 {
 		st.mu.Lock()
 		algor, sh := st.curAlgor, st.curShape
@@ -1092,7 +1109,7 @@ func c05CaseTblSeq(rt *rapid.T, rec *ev.Rec, env *c05Env, poisoned *bool) {
 	}
 	rec.Case(string(fpb), nt, classes...)
 	rec.Sample(w)
-	fail, hungAt := c05Watched(len(ops), func(i int) *c05Failure { return env.tblStep(&ops[i], true) })
+	fail, hungAt := c05Watched(len(ops), c05HangWindow, func(i int) *c05Failure { return env.tblStep(&ops[i], true) })
 	if hungAt >= 0 {
 		*poisoned = true
 		c05Report(rt, rec, &c05Failure{Key: "hang-table-" + ops[hungAt].K, Hang: true, Msg: fmt.Sprintf("table op %d (%s) made no progress for %v", hungAt, ops[hungAt].K, c05HangWindow)}, w)
